@@ -23,4 +23,5 @@ def run(project, rep):
     N.n_r5_headers(project, rep)
     N.n_r6_placeholder(project, rep)
     N.n_r7_routing(project, rep)
+    N.n_r7c_service_urls(project, rep)
     N.n_r8_cookies(project, rep)
